@@ -123,9 +123,9 @@ impl Prop for C02 {
         "C02"
     }
     fn rule(&self) -> String {
-        "Generated: (x, y, thread-default rounding mode) with y a Decimal or an integer of any of the 9 types on either side; class-based operands plus derived pairs: \
+        "Generated: (x, y, thread-default rounding mode) with y a Decimal or an integer of any of the 9 types on either side; class-based operands, related pairs (same value / same coefficient at another scale, negation), machine-word boundary and unit-like operands, wide-division-path pairs, plus derived pairs: \
          exact ties at the 19th digit (and tie+-1), wide products (coefficient product beyond i128) with rounded result near +-2^127, exact wide products of both signs, operands equal to zero/one in all representations, integer products at the overflow boundary. \
-         Each case runs *, *= and checked_mul in all operand forms against exact big-integer products rounded by the mode definitions. \
+         Each case runs *, *= and checked_mul in all operand forms against exact big-integer products rounded by the mode definitions; follow-up cases repeat an operand of the previous case on the same thread. \
          Non-trivial: p+q > 18 with a non-zero discarded part, or |product| > 2^127-1, or a tie. Distinct: hash of (x, y, mode)."
             .into()
     }
